@@ -561,6 +561,7 @@ def rest_tokens(toks, offs, consumed):
 # gen_tables (T)
 # ---------------------------------------------------------------------------------------------
 def gen_tables(ctx):
+    common.source_tie('C06')  # util/interval combinations translated from the source and proved equal to Model/Interval.v
     import importlib
     from exactly_lib.section_document.parse_source import ParseSource
     from exactly_lib.util.symbol_table import SymbolTable
